@@ -340,19 +340,26 @@ func c04History(t *testing.T, v0 *vCore, r *kit.Result, rng *kit.Rand, caseID st
 			var resp *logical.Response
 			var err error
 			had := len(m.children(x)) > 0 || len(x.Leases) > 0 || x.CubbyN > 0
+			// a root-namespace token named in a request that is addressed to a child namespace
+			via := x.NS
+			viaChild := x.NS == "" && (kind == 0 || kind == 2 || kind == 3) && rng.Chance(1, 5)
+			if viaChild {
+				via = "ns1/"
+				r.Count("revocations_addressed_through_a_child_namespace", 1)
+			}
 			switch kind {
 			case 0:
-				resp, err = v.Do(vReq{Op: logical.UpdateOperation, Path: "auth/token/revoke", Token: v.Root, Data: map[string]any{"token": x.ID}, NS: x.NS})
-				m.steps = append(m.steps, "revoke "+x.Name+" -> "+vErrStr(resp, err))
+				resp, err = v.Do(vReq{Op: logical.UpdateOperation, Path: "auth/token/revoke", Token: v.Root, Data: map[string]any{"token": x.ID}, NS: via})
+				m.steps = append(m.steps, "revoke "+x.Name+" via ns "+via+" -> "+vErrStr(resp, err))
 			case 1:
 				resp, err = v.Do(vReq{Op: logical.UpdateOperation, Path: "auth/token/revoke-self", Token: x.ID, NS: x.NS})
 				m.steps = append(m.steps, "revoke-self "+x.Name+" -> "+vErrStr(resp, err))
 			case 2:
-				resp, err = v.Do(vReq{Op: logical.UpdateOperation, Path: "auth/token/revoke-accessor", Token: v.Root, Data: map[string]any{"accessor": x.Accessor}, NS: x.NS})
-				m.steps = append(m.steps, "revoke-accessor "+x.Name+" -> "+vErrStr(resp, err))
+				resp, err = v.Do(vReq{Op: logical.UpdateOperation, Path: "auth/token/revoke-accessor", Token: v.Root, Data: map[string]any{"accessor": x.Accessor}, NS: via})
+				m.steps = append(m.steps, "revoke-accessor "+x.Name+" via ns "+via+" -> "+vErrStr(resp, err))
 			case 3:
-				resp, err = v.Do(vReq{Op: logical.UpdateOperation, Path: "auth/token/revoke-orphan", Token: v.Root, Data: map[string]any{"token": x.ID}, NS: x.NS})
-				m.steps = append(m.steps, "revoke-orphan "+x.Name+" -> "+vErrStr(resp, err))
+				resp, err = v.Do(vReq{Op: logical.UpdateOperation, Path: "auth/token/revoke-orphan", Token: v.Root, Data: map[string]any{"token": x.ID}, NS: via})
+				m.steps = append(m.steps, "revoke-orphan "+x.Name+" via ns "+via+" -> "+vErrStr(resp, err))
 			case 4:
 				ctx := c04NSCtx(v, x.NS)
 				te, lerr := v.Core.tokenStore.Lookup(ctx, x.ID)
@@ -368,9 +375,24 @@ func c04History(t *testing.T, v0 *vCore, r *kit.Result, rng *kit.Rand, caseID st
 				resp, err = v.Do(vReq{Op: logical.UpdateOperation, Path: "sys/leases/revoke", Token: v.Root, Data: map[string]any{"lease_id": leaseID, "sync": true}, NS: x.NS})
 				m.steps = append(m.steps, "lease-revoke(sync) "+x.Name+" -> "+vErrStr(resp, err))
 			}
+			if !vOK(resp, err) && viaChild {
+				r.Count("revocations_through_a_child_namespace_refused", 1)
+				continue // refused: nothing was reported successful
+			}
 			if !vOK(resp, err) {
 				r.Violate("C04-revoke-failed", caseID, "fault-free revocation reported failure: "+vErrStr(resp, err), m.steps)
 				return
+			}
+			if viaChild {
+				r.Count("revocations_through_a_child_namespace_reported_successful", 1)
+				if kind == 3 && v.TokenUsable(x.ID, x.NS) {
+					// open finding F47d: revoke-orphan addressed to a child namespace looks a suffix-less
+					// (root-namespace) token id up in the child namespace's store, finds nothing and
+					// reports success; the model follows the real outcome so that the history goes on
+					r.Violate("C04-root-namespace-token-revoke-orphan-through-child-namespace-reported-success-without-effect", caseID,
+						fmt.Sprintf("[%s] auth/token/revoke-orphan addressed to ns1/ naming root-namespace token %s reported success; the token is still accepted by lookup-self", caseID, x.Name), m.steps)
+					continue
+				}
 			}
 			r.Count("revocations", 1)
 			if had {
